@@ -117,6 +117,7 @@ class BaseSamples:
             log_prior=self.log_prior,
             log_q=self.log_q,
             xp=np,
+            dtype=dtype,
         )
 
     def to_namespace(self, xp, dtype: Any | str | None = None):
@@ -393,11 +394,10 @@ class BaseSamples:
         """Create a Samples object from a BaseSamples object."""
         xp = kwargs.pop("xp", samples.xp)
         device = kwargs.pop("device", samples.device)
-        dtype = kwargs.pop("dtype", samples.dtype)
-        if dtype is not None:
-            dtype = resolve_dtype(dtype, xp)
-        else:
-            dtype = convert_dtype(samples.dtype, xp)
+        dtype = kwargs.pop("dtype", None)
+        if dtype is None:
+            dtype = samples.dtype
+        dtype = convert_dtype(dtype, xp)
         return cls(
             x=samples.x,
             log_likelihood=samples.log_likelihood,
@@ -406,6 +406,7 @@ class BaseSamples:
             parameters=samples.parameters,
             xp=xp,
             device=device,
+            dtype=dtype,
             **kwargs,
         )
 
@@ -539,47 +540,22 @@ class Samples(BaseSamples):
             )
         return out
 
-    def to_namespace(self, xp):
-        return self.__class__(
-            x=asarray(self.x, xp, dtype=self.dtype),
-            parameters=self.parameters,
-            log_likelihood=asarray(self.log_likelihood, xp, dtype=self.dtype)
-            if self.log_likelihood is not None
-            else None,
-            log_prior=asarray(self.log_prior, xp, dtype=self.dtype)
-            if self.log_prior is not None
-            else None,
-            log_q=asarray(self.log_q, xp, dtype=self.dtype)
-            if self.log_q is not None
-            else None,
-            log_evidence=asarray(self.log_evidence, xp, dtype=self.dtype)
-            if self.log_evidence is not None
-            else None,
-            log_evidence_error=asarray(
-                self.log_evidence_error, xp, dtype=self.dtype
+    def to_namespace(self, xp, dtype: Any | str | None = None):
+        samples = super().to_namespace(xp, dtype=dtype)
+        if self.log_evidence is not None:
+            samples.log_evidence = samples.array_to_namespace(
+                self.log_evidence
             )
-            if self.log_evidence_error is not None
-            else None,
-        )
+        if self.log_evidence_error is not None:
+            samples.log_evidence_error = samples.array_to_namespace(
+                self.log_evidence_error
+            )
+        return samples
 
-    def to_numpy(self):
-        return self.__class__(
-            x=to_numpy(self.x),
-            parameters=self.parameters,
-            log_likelihood=to_numpy(self.log_likelihood)
-            if self.log_likelihood is not None
-            else None,
-            log_prior=to_numpy(self.log_prior)
-            if self.log_prior is not None
-            else None,
-            log_q=to_numpy(self.log_q) if self.log_q is not None else None,
-            log_evidence=self.log_evidence
-            if self.log_evidence is not None
-            else None,
-            log_evidence_error=self.log_evidence_error
-            if self.log_evidence_error is not None
-            else None,
-        )
+    def to_numpy(self, dtype: Any | str | None = None):
+        import array_api_compat.numpy as np
+
+        return self.to_namespace(np, dtype=dtype)
 
     def to_dataframe(self, include: list[str] | None = None) -> "pd.DataFrame":
         """Convert the samples to a pandas DataFrame.
@@ -704,12 +680,15 @@ class SMCSamples(BaseSamples):
             log_likelihood=self.log_likelihood,
             log_prior=self.log_prior,
             xp=self.xp,
+            dtype=self.dtype,
             parameters=self.parameters,
             log_evidence=self.log_evidence,
             log_evidence_error=self.log_evidence_error,
         )
 
     def to_numpy(self):
+        import array_api_compat.numpy as np
+
         return self.__class__(
             x=to_numpy(self.x),
             parameters=self.parameters,
@@ -720,6 +699,7 @@ class SMCSamples(BaseSamples):
             if self.log_prior is not None
             else None,
             log_q=to_numpy(self.log_q) if self.log_q is not None else None,
+            dtype=convert_dtype(self.dtype, np),
             beta=self.beta,
             log_evidence=self.log_evidence
             if self.log_evidence is not None
